@@ -343,6 +343,8 @@ def finding_matches(fd, prop, ev, fmts):
         f = fmts[ev.get("fmt", 0)] if isinstance(ev.get("fmt"), int) and ev.get("fmt") < len(fmts) else {}
         if tag not in f.get("tags", []):
             return False
+    if m.get("cfg_endswith") and not str(ev.get("cfg", "")).endswith(m["cfg_endswith"]):
+        return False
     if m.get("fmt_calls_any"):
         f = fmts[ev.get("fmt", 0)] if isinstance(ev.get("fmt"), int) and ev.get("fmt") < len(fmts) else {}
         if not any(c[0] in m["fmt_calls_any"] and c[1] for c in f.get("calls", [])):
